@@ -115,6 +115,10 @@ Definition pres := outcome (value * bytes * refs).
 
 (* `count` objects in a row; each consumes at least one byte, so any `fuel` >= the bytes available suffices
    (the caller passes its own remaining fuel, which is at least the number of bytes left) *)
+(* flag_refs[index] with a 32-bit index: no conversion of the index to unary *)
+Fixpoint nth_N {A} (l : list A) (n : N) : option A :=
+  match l with [] => None | a :: r => if n =? 0 then Some a else nth_N r (N.pred n) end.
+
 Fixpoint parse_items (p : bytes -> refs -> pres) (fuel : nat) (count : N) (rest : bytes) (r : refs) (acc : list value)
   : outcome (list value * bytes * refs) :=
   if count =? 0 then Ok (frev acc, rest, r)
@@ -218,7 +222,7 @@ Fixpoint parse (ver : version) (fuel : nat) (depth : nat) (rest : bytes) (r : re
         else if code =? pyc_code_ref then
           match take 4 rest0 with
           | Some (x, rest') =>
-              match nth_error r0 (N.to_nat (le_decode x)) with
+              match nth_N r0 (le_decode x) with
               | Some (Some t) => Ok (t, rest', r0)
               | _ => Bad                                  (* out of range, or "reference from within" *)
               end
